@@ -35,6 +35,7 @@ type propCheck struct {
 	Outside     []string
 	Assumptions []string
 	Oracle      string
+	Labels      []string // violations count for this property only if their label contains one of these (empty: all)
 }
 
 type knownFinding struct {
@@ -216,6 +217,18 @@ type harnessEvidence struct {
 	Samples        []map[string]interface{} `json:"-"`
 }
 
+func (pc *propCheck) owns(label string) bool {
+	if len(pc.Labels) == 0 || strings.HasPrefix(label, "panic:") {
+		return true
+	}
+	for _, l := range pc.Labels {
+		if strings.Contains(label, l) {
+			return true
+		}
+	}
+	return false
+}
+
 func cmdCheck(args []string) int {
 	fs := flag.NewFlagSet("check", flag.ExitOnError)
 	tier := fs.String("tier", envOr("VERIF_TIER", "quick"), "quick | thorough")
@@ -304,6 +317,9 @@ func cmdCheck(args []string) int {
 			AssertsReached: st.AssertsReached, AssertsSMT: st.AssertsDischargedBySMT, AssertsFacts: st.AssertsConcrete, FastResolved: st.FastResolved,
 			AssertLabels: st.AssertLabels, Covers: st.Covers, Unknowns: st.Unknowns}
 		for _, v := range e.Violations {
+			if !pc.owns(v.Label) {
+				continue
+			}
 			if v.Known != "" {
 				he.Known++
 			} else {
